@@ -597,6 +597,232 @@ def run_public(ctx, n_cases):
     ctx.extra["public_case_kinds"] = hist
 
 
+# ---- precision stream: generic (non-dyadic) complex128 data against a numpy complex128 reference ----------------
+RING_TOL = 1e-12      # ring-only operations: observed error ~1e-15 * size; complex64 round trips give ~1e-7
+QR_TOL = 1e-10        # operations that run QR / eigh (precision 1e-14, or well-conditioned data at the default)
+
+
+def np_dense(factors):
+    """numpy complex128 dense contraction of a chain (MPO factors flattened)"""
+    import numpy as np
+
+    fs = [as3(t).detach().cpu().numpy().astype(np.complex128) for t in factors]
+    cur = fs[0][0]
+    for t in fs[1:]:
+        cur = np.tensordot(cur, t, axes=1)
+    return cur[..., 0]
+
+
+def np_op(mpo_f, n, d):
+    el = np_dense(mpo_f).reshape([d, d] * n)
+    return el.transpose(list(range(0, 2 * n, 2)) + list(range(1, 2 * n, 2))).reshape(d ** n, d ** n)
+
+
+def np_site(psi, g, q):
+    import numpy as np
+
+    return np.moveaxis(np.tensordot(g, psi, axes=([1], [q])), 0, q)
+
+
+def well_conditioned(vec_or_mat_dense, dims_left_list, floor=1e-3):
+    """every bipartition has no singular value in (1e-12, floor) relative to the largest: truncation at 1e-5 is lossless"""
+    import numpy as np
+
+    for dl_ in dims_left_list:
+        sv = np.linalg.svd(vec_or_mat_dense.reshape(dl_, -1), compute_uv=False)
+        rel = sv / sv[0]
+        if ((rel > 1e-12) & (rel < floor)).any():
+            return False
+    return True
+
+
+def precision_case(ctx, rng, tgen, idx):
+    import numpy as np
+    import torch
+    from emu_mps.algebra import add_factors, scale_factors
+    from emu_mps.mps import MPS
+    from emu_mps.mpo import MPO
+
+    kind = rng.choice(["add_factors", "scale_factors", "mps_add", "mps_rmul", "inner_overlap", "mpo_add_rmul", "mpo_matmul",
+                       "apply_to", "expect", "from_operator_repr", "from_state_amplitudes", "expect_batch", "correlation"])
+    n = rng.randint(2, 6)
+    d = rng.choice([2, 3])
+    chi = rng.choice([1, 2, 3, 4, 6])
+    case = {"kind": "precision:" + kind, "n": n, "d": d, "chi": chi, "idx": idx}
+    bad = []
+    c128 = torch.complex128
+
+    def close(got, ref, tol, scale, what):
+        got = np.asarray(got.detach().cpu().numpy() if hasattr(got, "detach") else got)
+        err = float(np.max(np.abs(got - ref))) if got.size else 0.0
+        if not err <= tol * scale:
+            bad.append(f"{what}: |got - numpy reference| = {err:.3e} > {tol:.0e} * data scale {scale:.3e}")
+
+    def dtypes(factors, what):
+        wrong = sorted({str(f.dtype) for f in factors if f.dtype != c128})
+        if wrong:
+            bad.append(f"{what}: result factors have dtype {wrong}, expected complex128")
+
+    def scalar_dtype(x, what, allowed=(torch.complex128, torch.float64)):
+        if hasattr(x, "dtype") and x.dtype not in allowed:
+            bad.append(f"{what}: result dtype {x.dtype}")
+
+    A = rand_c_mps(rng, n, d, chi, tgen)
+    B = rand_c_mps(rng, n, d, rng.choice([1, 2, 3, 4]), tgen)
+    nA, nB = np_dense(A), np_dense(B)
+    sA, sB = float(np.linalg.norm(nA)), float(np.linalg.norm(nB))
+    mk = lambda fs, **kw: MPS(copy_factors(fs), num_gpus_to_use=None, eigenstates=_eig(d), **kw)
+    if kind == "add_factors":
+        C = add_factors(copy_factors(A), copy_factors(B))
+        close(dense(C), nA + nB, RING_TOL, sA + sB, "add_factors")
+        dtypes(C, "add_factors")
+    elif kind == "scale_factors":
+        c = complex(rng.uniform(-2, 2), rng.uniform(-2, 2))
+        C = scale_factors(copy_factors(A), c, which=rng.randrange(n))
+        close(dense(C), c * nA, RING_TOL, abs(c) * sA + 1e-300, "scale_factors")
+        dtypes(C, "scale_factors")
+    elif kind == "mps_add":
+        r = mk(A, precision=1e-14) + mk(B, precision=1e-14)
+        close(dense(r.factors), nA + nB, QR_TOL, sA + sB, "MPS.__add__ (precision 1e-14)")
+        dtypes(r.factors, "MPS.__add__")
+    elif kind == "mps_rmul":
+        c = complex(rng.uniform(-2, 2), rng.uniform(-2, 2))
+        r = c * mk(A)
+        close(dense(r.factors), c * nA, RING_TOL, abs(c) * sA + 1e-300, "MPS.__rmul__")
+        dtypes(r.factors, "MPS.__rmul__")
+    elif kind == "inner_overlap":
+        ma, mb = mk(A), mk(B)
+        ref = np.vdot(nA.reshape(-1), nB.reshape(-1))
+        got = ma.inner(mb)
+        close(got, ref, RING_TOL, sA * sB, "MPS.inner")
+        scalar_dtype(got, "MPS.inner")
+        close(ma.overlap(mb), abs(ref) ** 2, RING_TOL, (sA * sB) ** 2, "MPS.overlap")
+        close(ma.norm(), sA, QR_TOL, sA, "MPS.norm")
+    elif kind in ("mpo_add_rmul", "mpo_matmul", "apply_to", "expect"):
+        n = min(n, 4)
+        case["n"] = n
+        A = rand_c_mps(rng, n, d, chi, tgen)
+        nA = np_dense(A)
+        sA = float(np.linalg.norm(nA))
+        W1 = rand_c_mpo(rng, n, d, rng.choice([1, 2, 3]), tgen)
+        W2 = rand_c_mpo(rng, n, d, rng.choice([1, 2, 3]), tgen)
+        O1, O2 = np_op(W1, n, d), np_op(W2, n, d)
+        s1, s2 = float(np.linalg.norm(O1)), float(np.linalg.norm(O2))
+        if kind == "mpo_add_rmul":
+            c = complex(rng.uniform(-2, 2), rng.uniform(-2, 2))
+            r = MPO(copy_factors(W1)) + c * MPO(copy_factors(W2))
+            close(dense_op(r.factors, n, d), O1 + c * O2, RING_TOL, s1 + abs(c) * s2, "MPO.__add__/__rmul__")
+            dtypes(r.factors, "MPO.__add__/__rmul__")
+        elif kind == "mpo_matmul":
+            ref = O1 @ O2
+            el = ref.reshape([d] * (2 * n)).transpose([x for q in range(n) for x in (q, n + q)])   # (o0,i0,o1,i1,...)
+            if not well_conditioned(el, [(d * d) ** k for k in range(1, n)]):
+                case["skipped"] = "ill-conditioned for the fixed 1e-5 truncation of __matmul__"
+                return case, bad
+            r = MPO(copy_factors(W1)) @ MPO(copy_factors(W2))
+            close(dense_op(r.factors, n, d), ref, QR_TOL, float(np.linalg.norm(ref)), "MPO.__matmul__")
+            dtypes(r.factors, "MPO.__matmul__")
+        elif kind == "apply_to":
+            r = MPO(copy_factors(W1)).apply_to(mk(A, precision=1e-14))
+            ref = (O1 @ nA.reshape(-1)).reshape(nA.shape)
+            close(dense(r.factors), ref, QR_TOL, s1 * sA, "MPO.apply_to (precision 1e-14)")
+            dtypes(r.factors, "MPO.apply_to")
+        else:
+            got = MPO(copy_factors(W1)).expect(mk(A))
+            close(got, np.vdot(nA.reshape(-1), O1 @ nA.reshape(-1)), RING_TOL, s1 * sA * sA, "MPO.expect")
+            scalar_dtype(got, "MPO.expect")
+    elif kind == "expect_batch":
+        ops = torch.randn(3, d, d, dtype=c128, generator=tgen)
+        got = mk(A).expect_batch(ops)
+        ref = np.zeros((n, 3), dtype=np.complex128)
+        for q in range(n):
+            for i in range(3):
+                ref[q, i] = np.vdot(nA.reshape(-1), np_site(nA, ops[i].numpy(), q).reshape(-1))
+        close(got, ref, QR_TOL, sA * sA * float(ops.abs().max()) * d, "expect_batch")
+        scalar_dtype(got, "expect_batch")
+    elif kind == "correlation":
+        v = torch.randn(d, dtype=c128, generator=tgen)
+        v /= v.norm()
+        P = torch.outer(v, v.conj())
+        got = mk(A).get_correlation_matrix(P)
+        ref = np.zeros((n, n), dtype=np.complex128)
+        for i in range(n):
+            for j in range(n):
+                ref[i, j] = np.vdot(nA.reshape(-1), np_site(np_site(nA, P.numpy(), j), P.numpy(), i).reshape(-1)).real
+        close(got, ref, QR_TOL, sA * sA, "get_correlation_matrix")
+    elif kind == "from_operator_repr":
+        basis = rng.choice([("r", "g"), ("0", "1"), ("g", "r", "x")])
+        idx_of = {"g": 0, "0": 0, "r": 1, "1": 1, "x": 2}
+        dd = len(basis)
+        n = rng.randint(2, 4)
+        case["n"] = n
+        operations, ref = [], np.zeros((dd ** n, dd ** n), dtype=np.complex128)
+        for _ in range(rng.randint(1, 4)):
+            coeff = complex(rng.uniform(-1, 1), rng.uniform(-1, 1))
+            qubits = list(range(n))
+            rng.shuffle(qubits)
+            tensorop, per_site = [], [np.eye(dd, dtype=np.complex128) for _ in range(n)]
+            for _ in range(rng.randint(0, 3)):
+                if not qubits:
+                    break
+                targets = {qubits.pop() for _ in range(min(len(qubits), rng.randint(1, 2)))}
+                qop, mat = {}, np.zeros((dd, dd), dtype=np.complex128)
+                for _ in range(rng.randint(1, 3)):
+                    a_, b_ = rng.choice(basis), rng.choice(basis)
+                    if a_ + b_ in qop:
+                        continue
+                    qop[a_ + b_] = complex(rng.uniform(-1, 1), rng.uniform(-1, 1))
+                    mat[idx_of[a_], idx_of[b_]] += qop[a_ + b_]
+                tensorop.append((qop, targets))
+                for t in targets:
+                    per_site[t] = mat
+            operations.append((coeff, tensorop))
+            term = per_site[0]
+            for t in per_site[1:]:
+                term = np.kron(term, t)
+            ref += coeff * term
+        case["operations"] = str(operations)
+        op = MPO.from_operator_repr(eigenstates=basis, n_qudits=n, operations=operations)
+        close(dense_op(op.factors, n, dd), ref, RING_TOL, max(1.0, float(np.linalg.norm(ref))), "from_operator_repr")
+        dtypes(op.factors, "from_operator_repr")
+    elif kind == "from_state_amplitudes":
+        basis = rng.choice([("r", "g"), ("0", "1"), ("g", "r", "x")])
+        idx_of = {"g": 0, "0": 0, "r": 1, "1": 1, "x": 2}
+        dd = len(basis)
+        n = rng.randint(2, 5)
+        case["n"] = n
+        amps = {}
+        for _ in range(rng.randint(1, 4)):
+            key = "".join(rng.choice(basis) for _ in range(n))
+            amps[key] = complex(rng.uniform(0.3, 1) * rng.choice([-1, 1]), rng.uniform(0.3, 1) * rng.choice([-1, 1]))
+        case["amplitudes"] = {k_: [v_.real, v_.imag] for k_, v_ in amps.items()}
+        ref = np.zeros([dd] * n, dtype=np.complex128)
+        for key, a_ in amps.items():
+            ref[tuple(idx_of[ch] for ch in key)] += a_
+        ref /= np.linalg.norm(ref)
+        if not well_conditioned(ref, [dd ** k_ for k_ in range(1, n)]):
+            case["skipped"] = "ill-conditioned for the default 1e-5 truncation"
+            return case, bad
+        st = MPS.from_state_amplitudes(eigenstates=basis, amplitudes=dict(amps))
+        close(dense(st.factors), ref, QR_TOL, 1.0, "from_state_amplitudes")
+        dtypes(st.factors, "from_state_amplitudes")
+    return case, bad
+
+
+def run_precision(ctx, n_cases):
+    import torch
+
+    tgen = torch.Generator().manual_seed(ctx.rng.randrange(2 ** 31))
+    hist = {}
+    for i in range(n_cases):
+        case, bad = precision_case(ctx, ctx.rng, tgen, i)
+        hist[case["kind"]] = hist.get(case["kind"], 0) + 1
+        ctx.count_case(case, "skipped" not in case)
+        if bad:
+            ctx.violation("; ".join(bad)[:600], {"case": case, "finding_key": "mps-op-lost-precision"})
+    ctx.extra["precision_case_kinds"] = hist
+
+
 def corpus_cases():
     p = common.VERIF / "corpus" / "C11.json"
     return json.loads(p.read_text()) if p.exists() else []
@@ -612,6 +838,7 @@ def run(ctx):
     if model_rc == 0:
         run_exact(ctx, ctx.n(120, 1500))
     run_public(ctx, ctx.n(150, 3000))
+    run_precision(ctx, ctx.n(200, 3000))
     ctx.rule = ("exact stream: random Gaussian-integer tensor trains (2-8 sites, bonds 1-6, d in {2,3}, MPO factors "
                 "flattened), entries bounded so every contraction is exact in binary64, plus malformed shapes; "
                 "falsifier stream: 12 public operations on random complex MPS/MPO (2-8 sites, bonds <= 16, d in {2,3}, "
@@ -625,6 +852,9 @@ def run(ctx):
         "validated against dense linear algebra: |error| <= sqrt(N-1)*precision (+1e-9 relative) after truncating operations",
         "from_amplitudes (accumulation without truncation/normalisation) is checked on the model only; the real "
         "_from_state_amplitudes is validated by the dense falsifier",
+        "precision stream: generic complex128 data against a numpy complex128 reference at 1e-12 (ring-only operations) / "
+        "1e-10 (operations running QR/eigh, with precision 1e-14 or data whose Schmidt values are all > 1e-3 where the "
+        "truncation threshold is fixed at 1e-5) relative to the data scale, plus a dtype oracle (complex128 factors)",
         "get_correlation_matrix is checked with Hermitian idempotent operators only (the diagonal is <O_i>, not <O_i O_i>)",
     ]
     ctx.notes.append("observation (not a violation of the check): get_correlation_matrix returns <O_i> on the diagonal where the "
